@@ -1,4 +1,6 @@
-// Kani stub-environment unit for `copy_half` (src/copy.rs): the relay loop of one direction of every tunnel.
+// Kani stub-environment unit for `copy_half` (src/copy.rs): the relay loop of one direction of every tunnel
+// (properties C01 byte-stream fidelity, C04 end-of-stream relayed after the data and identically in both I/O modes,
+// C10 every datagram forwarded exactly once).
 // `struct SrcHalf`, `struct DstHalf` and `async fn copy_half` are extracted from /repo on every run and compiled verbatim.
 // The environment is heap-light: streams / frame channels / the splice pipe are ghost-logged stubs whose methods play
 // the contracts of tokio's AsyncReadExt/AsyncWriteExt, of FrameReader/FrameWriter and of splice(2) with symbolic outcomes;
@@ -13,6 +15,7 @@ macro_rules! format { ($($t:tt)*) => { Msg } }
 #[derive(Clone, Copy, Debug, PartialEq, Eq)] pub struct IoError(pub u8);
 pub type IoResult<T> = Result<T, IoError>;
 #[derive(Clone, Copy, Debug, PartialEq, Eq)] pub struct Error(pub u8);
+pub fn err_msg<T>(_m: T) -> Error { Error(100) }
 pub trait ResultExt<T> { fn with_context<S, F: FnOnce() -> S>(self, f: F) -> Result<T, Error>; fn context<S>(self, s: S) -> Result<T, Error>; }
 impl<T> ResultExt<T> for IoResult<T> {
     fn with_context<S, F: FnOnce() -> S>(self, f: F) -> Result<T, Error> { match self { Ok(v) => Ok(v), Err(e) => Err(Error(e.0)) } }
@@ -22,7 +25,7 @@ pub struct Arc<T>(pub T);
 impl<T> std::ops::Deref for Arc<T> { type Target = T; fn deref(&self) -> &T { &self.0 } }
 
 pub const BUFN: usize = 2;      // relay buffer size of the harness
-pub const LOGN: usize = 6;      // capacity of the ghost logs
+pub const LOGN: usize = 3;      // capacity of the ghost logs
 pub struct IoParams { pub buffer_size: usize }
 pub struct BytesMut { data: [u8; BUFN], len: usize }
 impl BytesMut { pub fn zeroed(n: usize) -> BytesMut { assert!(n <= BUFN); BytesMut { data: [0; BUFN], len: n } } }
@@ -42,7 +45,7 @@ static mut STAT_BYTES: usize = 0;
 static mut STAT_FRAMES: usize = 0;
 static mut PIPE: usize = 0;                  // bytes sitting in the splice pipe
 static mut STEPS: u32 = 0;                   // read operations handed out (bounds the run)
-pub const MAX_STEPS: u32 = 3;
+pub const MAX_STEPS: u32 = 3;      // read operations per run (the last one reports end of stream)
 
 pub struct ContextStatistics(pub u8);
 impl ContextStatistics {
@@ -130,9 +133,16 @@ impl FrameWriter for FW {
 pub struct OwnedFd(pub u8);
 pub struct AsyncFd<T>(pub T);
 pub mod futures {
-    pub mod future { pub type BoxFuture<'a, T> = std::pin::Pin<Box<dyn std::future::Future<Output = T> + Send + 'a>>; }
-    pub trait FutureExt: std::future::Future { fn boxed<'a>(self) -> future::BoxFuture<'a, Self::Output> where Self: Sized + Send + 'a { Box::pin(self) } }
-    impl<F: std::future::Future> FutureExt for F {}
+    pub mod future {
+        /// stand-in for Pin<Box<dyn Future + Send>>: the stub futures are always ready, so no allocation and no dyn dispatch
+        pub struct BoxFuture<'a, T>(pub Option<T>, pub std::marker::PhantomData<&'a ()>);
+        impl<'a, T: Unpin> std::future::Future for BoxFuture<'a, T> {
+            type Output = T;
+            fn poll(mut self: std::pin::Pin<&mut Self>, _cx: &mut std::task::Context<'_>) -> std::task::Poll<T> { std::task::Poll::Ready(self.0.take().unwrap()) }
+        }
+    }
+    pub trait FutureExt { type Out; fn boxed<'a>(self) -> future::BoxFuture<'a, Self::Out>; }
+    impl<T> FutureExt for std::future::Ready<T> { type Out = T; fn boxed<'a>(self) -> future::BoxFuture<'a, T> { future::BoxFuture(Some(self.into_inner()), std::marker::PhantomData) } }
 }
 use futures::future::BoxFuture;
 pub mod common { pub mod splice {
@@ -155,7 +165,6 @@ pub mod common { pub mod splice {
             if nondet_bool() { return ready(Err(IoError(9))); }
             let n = nondet_usize();
             assume(n <= len && n <= PIPE && (n > 0 || PIPE == 0));
-            if SPLICE_OUT_COMPLETE { assume(n == if PIPE < len { PIPE } else { len }); }
             // the bytes leave the pipe in order: destination log := source[..DST_POS+n]
             let mut i = 0;
             while i < LOGN { if i >= DST_POS && i < DST_POS + n { DST[i] = SRC[i]; } i += 1; }
@@ -163,9 +172,10 @@ pub mod common { pub mod splice {
             ready(Ok(n))
         }
     } }
+    /// shutdown(fd, SHUT_WR) on the destination socket
+    pub fn shutdown_write(fd: &AsyncFd<OwnedFd>) -> IoResult<()> { unsafe { assert!((fd.0).0 == 2, "half-close goes to the destination socket"); DST_SHUT += 1; if nondet_bool() { return Err(IoError(11)); } Ok(()) } }
     pub fn pipe() -> IoResult<(AsyncFd<OwnedFd>, AsyncFd<OwnedFd>)> { if nondet_bool() { Err(IoError(10)) } else { Ok((AsyncFd(OwnedFd(3)), AsyncFd(OwnedFd(4)))) } }
 } }
-static mut SPLICE_OUT_COMPLETE: bool = true;
 
 // ------------------------------------------------------------------ tokio::select! stand-in
 pub mod tokio {
@@ -173,13 +183,10 @@ pub mod tokio {
         (@acc [$($acc:tt)*] else => $e:block) => { crate::tokio::select!(@emit [$($acc)*] $e) };
         (@acc [$($acc:tt)*] $p:ident = $f:expr, if $c:expr => $h:block $($rest:tt)*) => { crate::tokio::select!(@acc [$($acc)* ($p, $f, $c, $h)] $($rest)*) };
         (@emit [$(($p:ident, $f:expr, $c:expr, $h:block))+] $e:block) => {{
-            let __c = [ $( $c ),+ ];
-            let mut __any = false; let mut __k = 0usize;
-            while __k < __c.len() { if __c[__k] { __any = true; } __k += 1; }
-            let __pick: usize = crate::nondet_usize();
-            crate::assume(!__any || (__pick < __c.len() && __c[__pick]));
-            let mut __idx = 0usize;
-            $( if __any && __pick == __idx { let $p = $f.await; $h } __idx += 1; )+
+            // every enabled branch may be the one that completes first; a disabled branch is never polled
+            let mut __done = false; let mut __any = false;
+            $( if $c { __any = true; if !__done && crate::nondet_bool() { __done = true; let $p = $f.await; $h } } )+
+            crate::assume(__done || !__any);
             if !__any $e
         }};
         ($p:ident = $($t:tt)*) => { crate::tokio::select!(@acc [] $p = $($t)*) };
@@ -190,6 +197,13 @@ pub mod tokio {
 include!("src_half.in.rs");
 include!("dst_half.in.rs");
 include!("copy_half.in.rs");
+
+/// every stub future is immediately ready, so the whole relay loop completes within one poll
+pub fn run_ready<F: std::future::Future>(f: F) -> F::Output {
+    let mut f = std::pin::pin!(f);
+    let mut cx = std::task::Context::from_waker(std::task::Waker::noop());
+    match f.as_mut().poll(&mut cx) { std::task::Poll::Ready(v) => v, std::task::Poll::Pending => panic!("stub future pending") }
+}
 
 // ------------------------------------------------------------------ harnesses
 #[cfg(kani)]
@@ -207,17 +221,19 @@ fn check_common(r: &Result<(), Error>) { unsafe {
         // a direction ends normally only at the source's end-of-stream, with everything delivered
         assert!(SRC_EOF);
         assert!(DST_POS == SRC_POS);
+        // ... and the end of stream is passed on exactly once, after the data, in every I/O mode
+        assert!(DST_SHUT == 1);
     }
 } }
 
 #[cfg(kani)]
 #[kani::proof]
-#[kani::unwind(8)]
+#[kani::unwind(4)]
 fn frames_relayed_exactly_once() {
     init_world();
     let src: SrcHalf<Sock> = SrcHalf { name: "client", stream: None, frames: Some(Box::new(FR(0))), rawfd: None };
     let dst: DstHalf<Sock> = DstHalf { name: "server", stream: None, frames: Some(Box::new(FW(0))), rawfd: None };
-    let r = kani::block_on(copy_half(&IoParams { buffer_size: BUFN }, src, dst, Arc(ContextStatistics(0))));
+    let r = run_ready(copy_half(&IoParams { buffer_size: BUFN }, src, dst, Arc(ContextStatistics(0))));
     check_common(&r);
     unsafe {
         if r.is_ok() { assert!(DST_SHUT == 1 && STAT_FRAMES == DST_POS); }
@@ -228,31 +244,33 @@ fn frames_relayed_exactly_once() {
 
 #[cfg(kani)]
 #[kani::proof]
-#[kani::unwind(8)]
+#[kani::unwind(4)]
 fn stream_relayed_in_order() {
     init_world();
     let src: SrcHalf<Sock> = SrcHalf { name: "client", stream: Some(ReadHalf(Sock(0))), frames: None, rawfd: None };
     let dst: DstHalf<Sock> = DstHalf { name: "server", stream: Some(WriteHalf(Sock(0))), frames: None, rawfd: None };
-    let r = kani::block_on(copy_half(&IoParams { buffer_size: BUFN }, src, dst, Arc(ContextStatistics(0))));
+    let r = run_ready(copy_half(&IoParams { buffer_size: BUFN }, src, dst, Arc(ContextStatistics(0))));
     check_common(&r);
     unsafe {
         if r.is_ok() { assert!(DST_SHUT == 1 && FLUSHED_POS == DST_POS && STAT_BYTES == DST_POS); }
-        kani::cover!(r.is_ok() && DST_POS == 4);
+        kani::cover!(r.is_ok() && DST_POS == 3);
         kani::cover!(r.is_err() && DST_POS == 2);
     }
 }
 
 #[cfg(kani)]
-#[kani::proof]
-#[kani::unwind(8)]
-fn splice_relayed_in_order() {
+fn splice_run(steps: u32) {
     init_world();
-    unsafe { SPLICE_OUT_COMPLETE = true; }
     let src: SrcHalf<Sock> = SrcHalf { name: "client", stream: None, frames: None, rawfd: Some(AsyncFd(OwnedFd(1))) };
     let dst: DstHalf<Sock> = DstHalf { name: "server", stream: None, frames: None, rawfd: Some(AsyncFd(OwnedFd(2))) };
-    let r = kani::block_on(copy_half(&IoParams { buffer_size: BUFN }, src, dst, Arc(ContextStatistics(0))));
+    let r = run_ready(copy_half(&IoParams { buffer_size: BUFN }, src, dst, Arc(ContextStatistics(0))));
     check_common(&r);
-    unsafe { kani::cover!(r.is_ok() && DST_POS == 4); }
+    unsafe { kani::cover!(r.is_ok() && DST_POS == 2); kani::cover!(r.is_ok() && DST_POS == 1); }
 }
+
+#[cfg(kani)]
+#[kani::proof]
+#[kani::unwind(4)]
+fn splice_relayed_in_order() { splice_run(3) }
 
 fn main() {}
